@@ -1026,7 +1026,11 @@ def parse_primary_expr(lexer, unary_minus=False):
         )
         result = invoke(lexer, result)
     elif token.type == "pattern":
-        result = NodeLiteral(ValuePattern(token.value[2:-2]), token.pos)
+        try:
+            pattern = ValuePattern(token.value[2:-2])
+        except re.error as e:
+            raise CklSyntaxError(f"Invalid pattern ({e})", token.pos)
+        result = NodeLiteral(pattern, token.pos)
         result = invoke(lexer, result)
     else:
         if token.value == "fn" and token.type == "keyword":
